@@ -68,6 +68,11 @@ def geometric(outer, inner, hole):
             if o > OFF_CLEAR2: exp_ins[i] = 0
         return 'inadmissible', 'plane:offset', exp_ins, exp_enc
     if any(o > ON2 for o in offs): return None, 'plane:band', exp_ins, exp_enc
+    # an EXISTING hole that was accepted inside the coplanarity band (off the polygon's plane by more than ON2 but less than the
+    # refusal threshold) is not a clear configuration either: point tests against it cast rays in a plane that misses its edges
+    # by that offset, so containment in / of such a hole is not judged (seed 11 of the multi-seed sweep: an 'offset-band' hole
+    # followed by a candidate straddling it)
+    if any(pl.off2(p) > ON2 for g in inner for p in g.v): return None, 'existing-hole:band', exp_ins, exp_enc
     o2 = pl.to2(outer.v); h2 = pl.to2(hole.v); g2 = [pl.to2(g.v) for g in inner]
     status = []
     for i, q in enumerate(h2):
